@@ -34,7 +34,10 @@ ASSUMPTIONS = [
     "inputs are valid UTF-8 (a Rust String cannot hold anything else); the scanner theorems hold for every byte string",
     "the parser model has no panic-mode recovery: it defines the accepted language and the FIRST error; the recovery loop, later "
     "messages and code-emission limits (jump/loop/constant sizes) are covered by the tie only ((T),(P),(E))",
-    "nesting is exercised up to depth 200 (the stated bound); the harness runs each case on a 256 MiB stack",
+    "nesting is exercised up to depth 200 (the stated bound); the harness runs each case on a 256 MiB stack, except the length-scale "
+    "family (flat repetition up to 200 000 units), which compiles on a 1 MiB stack and confirms an overflow on the CLI's 8 MiB stack; "
+    "chains that are flat in the text but nested in the grammar (else-if, assignment, unary, lambda, && and || - right-recursive as in "
+    "clox) count as nesting",
 ]
 
 SCRIPTS = os.path.join(yvlib.REPO, "yarel", "tests", "scripts")
@@ -961,6 +964,346 @@ def multibyte_token_inputs():
     return res
 
 
+# ---------------------------------------------------------------------------------------------------------
+# round 9: LENGTH scale (flat repetition, the CLI's real stack) and errors reported AT long / wide tokens
+
+CLI_STACK_KIB = 8192    # the CLI compiles on the main thread: 8 MiB (ulimit -s); the harness case thread has 256 MiB
+STACK_KIB = 1024        # the scale family compiles on a SMALL stack (Windows main thread: 1 MiB; Rust thread default: 2 MiB)
+SCALE_MS = 20000        # watchdog of one scale text (debug build, loaded machine)
+SLOW_DEBUG = ("fns", "methods", "lambdas", "var_distinct")     # 3-6 ms per unit on the debug build: smaller sizes there
+
+# (name, prefix, unit, suffix, level): `prefix + unit * n + suffix`; level "scan" = only the scanner repeats (cheap: also
+# at 50k / 200k), "parse" = one parser loop iteration per unit.  Every unit is FLAT: no unit is nested in the previous one.
+FLAT = [
+    ("comment_lines", "", "// c\n", "print(1);", "scan"),
+    ("comment_blank_lines", "", "// c\n\n  \t", "print(1);", "scan"),
+    ("comment_inline_run", "var x = 1", " // c\n // d\n", ";", "scan"),
+    ("blank_lines", "", "\n", "print(1);", "scan"),
+    ("crlf_lines", "", "\r\n", "print(1);", "scan"),
+    ("spaces", "print(", " ", "1);", "scan"),
+    ("tabs_mixed", "print(", " \t\r", "1);", "scan"),
+    ("string_chars", 'var s = "', "aé", '";', "scan"),
+    ("string_escapes", 'var s = "', "\\n\\x41\\u00e9", '";', "scan"),
+    ("string_lines", 'var s = "', "a\n", '";', "scan"),
+    ("string_dollars", 'var s = "', "$ ", '";', "scan"),
+    ("ident_chars", "var ", "ab_1", " = 1;", "scan"),
+    ("number_digits", "var n = 1", "90", ";", "scan"),
+    ("fraction_digits", "var n = 1.", "90", ";", "scan"),
+    ("unexpected_chars", "", "@", "", "scan"),
+    ("unexpected_char_lines", "", "@\n", "", "scan"),
+    ("unexpected_wide_chars", "", "é ", "", "scan"),
+    ("comment_then_error_chars", "", "// c\n@\n", "", "scan"),
+    ("statements", "", "x;\n", "", "parse"),
+    ("statements_one_line", "", "1;", "", "parse"),
+    ("empty_statements", "", ";", "", "parse"),
+    ("var_same", "", "var v = 1;\n", "", "parse"),
+    ("var_distinct", "", None, "", "parse"),
+    ("prints", "", 'print("a");\n', "", "parse"),
+    ("blocks", "", "{}\n", "", "parse"),
+    ("block_statements", "{\n", "x;\n", "}", "parse"),
+    ("fn_body_statements", "fn f() {\n", "x;\n", "}", "parse"),
+    ("locals_in_blocks", "fn f() {\n", "{ var a = 1; }\n", "}", "parse"),
+    ("ifs", "", "if x {}\n", "", "parse"),
+    ("if_elses", "", "if x {} else {}\n", "", "parse"),
+    ("whiles", "", "while x { break; }\n", "", "parse"),
+    ("fors", "", "for i in x {}\n", "", "parse"),
+    ("trys", "", "try {} catch e {} finally {}\n", "", "parse"),
+    ("fns", "", "fn f() {}\n", "", "parse"),
+    ("classes", "", "class C {}\n", "", "parse"),
+    ("lambdas", "", "var l = |a| a;\n", "", "parse"),
+    ("methods", "class C {\n", None, "}", "parse"),
+    ("attribute_lists", "", "#[static]\n", "fn f() {}", "parse"),
+    ("attributes", "#[", "a,\n", "a] fn f() {}", "parse"),
+    ("returns", "fn f() {\n", "return;\n", "}", "parse"),
+    ("throws", "", "throw 1;\n", "", "parse"),
+    ("breaks", "while x {\n", "break;\ncontinue;\n", "}", "parse"),
+    ("vec_elements", "var v = [", "1,\n", "1];", "parse"),
+    ("tuple_elements", "var t = (", "1,\n", "1);", "parse"),
+    ("map_entries", "var m = {", "1: 1,\n", "1: 1};", "parse"),
+    ("call_args", "f(", "1,\n", "1);", "parse"),
+    ("params", "fn f(", None, "z) {}", "parse"),
+    ("lambda_params", "var l = |", None, "z| 1;", "parse"),
+    ("binary_plus", "var b = 1", " + 1", ";", "parse"),
+    ("binary_mixed", "var b = 1", " * 2 - 3 < 4\n == x & 1", ";", "parse"),
+    ("dots", "x", ".y", ";", "parse"),
+    ("calls", "f", "()", ";", "parse"),
+    ("indexes", "x", "[0]", ";", "parse"),
+    ("invokes", "x", ".m(1)\n", ";", "parse"),
+    ("compound_statements", "var x = 0;\n", "x += 1;\n", "", "parse"),
+    ("interp_parts", 'var s = "', "a${1}", 'b";', "parse"),
+    ("interp_strings", "", 'print("a${x}b");\n', "", "parse"),
+    ("strings_statements", "", '"é";\n', "", "parse"),
+    ("error_statements", "", "var = ;\n", "", "parse"),
+    ("error_closers", "", ")\n", "", "parse"),
+    ("error_braces", "", "}\n", "", "parse"),
+    ("error_operators", "", "+;\n", "", "parse"),
+    ("error_unterminated_interp", "", 'var s = "a${;\n', "", "parse"),
+    ("error_then_good", "", "var = ;\nvar y = 1;\n", "", "parse"),
+]
+FLAT_UNIT_FN = {
+    "var_distinct": lambda i: "var v%d = %d;\n" % (i, i),
+    "methods": lambda i: "fn m%d(self) {}\n" % i,
+    "params": lambda i: "p%d,\n" % i,
+    "lambda_params": lambda i: "p%d, " % i,
+}
+# flat in the TEXT but nested in the grammar (`else if` is an if statement inside an else branch, `a = a = 1` and
+# `|a| |a| 1` are right-nested): the recursion is the documented one, bounded by the stated nesting depth
+NESTED_IN_GRAMMAR = [
+    ("elseif_chain", "if x {}", " else if x {}\n", " else {}"),
+    ("assign_chain", "x", " = x", " = 1;"),
+    ("unary_chain", "var u = ", "-", "1;"),
+    ("lambda_chain", "var l = ", "|a| ", "a;"),
+    # `and` / `or` call parse_precedence(And / Or) for their right operand (as in clox): `a && b && c` is a && (b && c),
+    # one host recursion per operand; measured on the unchanged tree: 10 000 operands overflow a 1 MiB stack (debug build)
+    ("logical_and_chain", "var b = x", " && x", ";"),
+    ("logical_or_chain", "var b = x", " || x", ";"),
+]
+TAIL_ERROR = "\nvar = ;"           # an error AFTER the repetition: its line is a closed form of n
+
+
+def flat_text(name, pre, unit, suf, n):
+    f = FLAT_UNIT_FN.get(name)
+    body = "".join(f(i) for i in range(n)) if f else unit * n
+    return pre + body + suf
+
+
+def scale_sizes(name, level, quick, unit_len=9):
+    """-> (sizes for the debug build, further sizes for the release build only)"""
+    if name in SLOW_DEBUG:
+        return ([300], [1000, 10000]) if quick else ([300, 1000, 2000], [5000, 10000, 30000])
+    if level == "scan":
+        big = [200000] if unit_len <= 5 else []
+        return ([10000, 50000] + big, [1000]) if quick else ([300, 1000, 5000, 10000, 50000] + big, [1000000] if big else [200000])
+    return ([1000, 10000], [50000]) if quick else ([300, 1000, 5000, 10000, 30000], [50000, 100000])
+
+
+def scale_inputs(quick):
+    """-> [(family, text, size-3 text, debug build too?, (name, n, then_error))]: every flat construct at 1k / 10k
+    (scanner-level constructs also 50k and 200k; 50k on the release build for the parser-level ones), each also followed by
+    a syntax error; the grammar-nested chains at the stated bound"""
+    res = []
+    for name, pre, unit, suf, level in FLAT:
+        ds, rs = scale_sizes(name, level, quick, len(unit or "123456789"))
+        small = flat_text(name, pre, unit, suf, 3)
+        for n in sorted(ds + rs):
+            t = flat_text(name, pre, unit, suf, n)
+            res.append(("scale:%s:%d" % (name, n), t, small, n in ds, (name, n, False)))
+            res.append(("scale:%s:%d:then_error" % (name, n), t + TAIL_ERROR, small + TAIL_ERROR, n == max(ds) or (n in ds and not quick), (name, n, True)))
+    for name, pre, unit, suf in NESTED_IN_GRAMMAR:
+        for n in (100, 200):
+            res.append(("scale:%s:%d" % (name, n), pre + unit * n + suf, pre + unit * 3 + suf, True, None))
+    return res
+
+
+LINE_RE = re.compile(r'\A\[module "main", line (\d+)\]')
+COUNT_LIMIT_RE = re.compile(r"(Too many|Too much|too large|Cannot have more than|Can't have more than|more than \d+)")
+
+
+def run_scale(binary, srcs, stack_kib):
+    global CASE_MS
+    old = CASE_MS
+    CASE_MS = SCALE_MS
+    try:
+        return run_impl(binary, srcs, opts="stack=%d" % stack_kib, batch=6)
+    finally:
+        CASE_MS = old
+
+
+def confirm_on_cli_stack(binary, key):
+    """a text that overflows the SMALL stack is scaled up by the ratio of the stacks (x1.25) and compiled on the CLI's
+    real stack: the violation that is reported is the one a user of the command-line tool sees"""
+    name, n, then_error = key
+    row = [r for r in FLAT if r[0] == name][0]
+    big = flat_text(name, row[1], row[2], row[3], n * 10) + (TAIL_ERROR if then_error else "")
+    if len(big) > 12_000_000:
+        return None, None
+    global CASE_MS
+    old = CASE_MS
+    CASE_MS = 90000
+    try:
+        return big, run_impl(binary, [big], opts="stack=%d" % CLI_STACK_KIB, batch=1)[0]
+    finally:
+        CASE_MS = old
+
+
+def scale_family(ctx, st, quick):
+    """LENGTH scale.  Oracle, size-independent: the host stack compile needs must not grow with the LENGTH of a flat text:
+    every text is compiled on a thread with a SMALL stack (STACK_KIB = 1 MiB: the main-thread default of Windows, half of
+    Rust's thread default; the harness's case thread has 256 MiB and hides this class) on the debug AND the release build;
+    an overflow found there is re-built 10x longer and confirmed on the CLI's real 8 MiB stack.  (T),(P),(E); debug =
+    release (kind, number of messages, messages); closed forms: the text at size n is accepted iff the text at size 3 is
+    (which the model judges), unless a message names a documented count / code-size limit; a rejected text's first message
+    is the size-3 message, at line 1 / at the closed-form line when the error follows the repetition."""
+    cases = scale_inputs(quick)
+    srcs = [c[1] for c in cases]
+    smalls = sorted({c[2] for c in cases})
+    # size 3: the full oracle (model first message, both builds)
+    check_texts(ctx, [("scale:small", s) for s in smalls], st, "scalesmall", debug_subset=list(range(len(smalls))))
+    rel = ctx.harness("release")
+    dbg = ctx.harness("debug")
+    small_impl = dict(zip(smalls, run_impl(rel, smalls)))
+    t0 = time.time()
+    rimpl = run_scale(rel, srcs, STACK_KIB)
+    t1 = time.time()
+    didx = [i for i, c in enumerate(cases) if c[3]]
+    dpart = run_scale(dbg, [srcs[i] for i in didx], STACK_KIB)
+    dimpl = [None] * len(cases)
+    for i, d in zip(didx, dpart):
+        dimpl[i] = d
+    log("[C03] length scale: %d texts on the release build in %.0fs, %d on the debug build in %.0fs" % (len(srcs), t1 - t0, len(didx), time.time() - t1))
+    for k in ("scale_texts", "scale_closed_form", "scale_debug_timeouts_not_judged"):
+        st.setdefault(k, 0)
+    confirmed = set()
+    for (fam, t, small, _, key), r, d in zip(cases, rimpl, dimpl):
+        st["scale_texts"] += 1
+        bad = None
+        for build, binary, im in (("debug", dbg, d), ("release", rel, r)):
+            if im is None or im.kind == "skipped":
+                continue
+            if im.kind == "timeout" and build == "debug":
+                st["scale_debug_timeouts_not_judged"] += 1
+                continue
+            if im.kind in ("crash", "panic", "timeout"):
+                bad = (build, binary, im)
+                break
+        if bad:
+            build, binary, im = bad
+            if len(st["viol"]) >= 8 or (key and (key[0], build) in confirmed):
+                continue
+            v = dict(what="compile %s on a flat text of %d bytes (%s build, compiled on a thread with a %d KiB stack): the host stack / time needed "
+                          "grows with the LENGTH of the text, not with its nesting" % (
+                              {"crash": "crashes the process (stack overflow / abort)", "panic": "panics", "timeout": "does not terminate within %d ms" % SCALE_MS}[im.kind],
+                              len(t), build, STACK_KIB),
+                     input=t, expected="a function or a compile error", actual="%s %s" % (im.kind, im.detail), family=fam, cls="scalecrash",
+                     stack_kib=STACK_KIB, build=build)
+            if im.kind == "crash" and key:
+                confirmed.add((key[0], build))
+                big, cim = confirm_on_cli_stack(binary, key)
+                if cim is not None and cim.kind == "crash":
+                    v.update(input=big, stack_kib=CLI_STACK_KIB, actual="%s %s" % (cim.kind, cim.detail), family=fam + ":x10",
+                             what="compile crashes the process (stack overflow) on a flat text of %d bytes on the %s build with the CLI's real stack of %d KiB "
+                                  "(first seen at 1/10 of the length on a %d KiB stack): host recursion proportional to the LENGTH of the text" % (
+                                      len(big), build, CLI_STACK_KIB, STACK_KIB))
+                else:
+                    v["not_confirmed_on_cli_stack"] = str(cim)
+            st["viol"].append(v)
+            continue
+        if r.kind not in ("ok", "err"):
+            continue
+        nv = len(st["viol"])
+        judge(ctx, fam, t, r, None, dict(st, implonly_key="scale_judged", scale_judged=0, viol=st["viol"]), model_applies=False)
+        if len(st["viol"]) > nv:
+            continue
+        if d is not None and d.kind in ("ok", "err") and (d.kind, len(d.msgs), canon_msgs(d.msgs)) != (r.kind, len(r.msgs), canon_msgs(r.msgs)):
+            st["corr"].append("debug and release builds disagree on %s: %r vs %r" % (fam, d, r))
+            continue
+        s = small_impl.get(small)
+        if s is None or s.kind not in ("ok", "err") or any(COUNT_LIMIT_RE.search(m) for m in r.msgs):
+            continue
+        if r.kind != s.kind:
+            st["viol"].append(dict(what="the result depends on the LENGTH of a flat repetition: %s at size 3, %s at this size, no limit named"
+                                   % (s.kind, r.kind), input=t, expected="%s %s" % (s.kind, s.msgs[:1]), actual="%s %s" % (r.kind, r.msgs[:2]),
+                                   family=fam, cls="scalekind", stack_kib=STACK_KIB, build="release"))
+            continue
+        if r.kind == "err":
+            g0, g1 = LINE_RE.match(s.msgs[0]), LINE_RE.match(r.msgs[0])
+            if fam.endswith(":then_error") and small_impl[small[:-len(TAIL_ERROR)]].kind == "ok":
+                want = t.count("\n") + 1
+            elif g0 and int(g0.group(1)) == 1:
+                want = 1
+            else:
+                want = None
+            if g0 and g1 and (s.msgs[0][g0.end():] != r.msgs[0][g1.end():] or (want is not None and int(g1.group(1)) != want)):
+                st["viol"].append(dict(what="first message of a long flat text is not the size-3 message at the closed-form line %s" % want,
+                                       input=t, expected=s.msgs[0], actual=r.msgs[0], family=fam, cls="scalemsg", stack_kib=STACK_KIB, build="release"))
+                continue
+        st["scale_closed_form"] += 1
+    st["scale_cases"] = len(cases)
+    return len(cases) + len(smalls)
+
+
+def wide_token(width_char, shift, nbytes, kind="str"):
+    """a token whose TEXT has `nbytes`+ bytes of multi-byte characters, the first one at byte offset `shift` (so that for
+    every byte offset N one of the (width, shift) combinations has a character straddling N)"""
+    body = "a" * shift + width_char * ((nbytes - shift) // len(width_char.encode()) + 1)
+    if kind == "str":
+        return '"%s"' % body
+    if kind == "interp":
+        return '"%s${x}%s"' % (body, body)
+    if kind == "interp_tail":
+        return '"a${x}%s"' % body
+    return body                     # bare: unexpected characters (Error tokens)
+
+
+ERRTOK_TEMPLATES = MB_TEMPLATES_EXTRA = [
+    "print %s;", "var x = 1 %s;", "f(1 %s);", "[1 %s];", "{1 %s};", "class C { %s }", "class C { fn m(self) %s }", "fn f(a %s) {}",
+    "fn %s", "var x %s", "if x %s", "while x { } %s", "for i %s", "try { } catch e %s", "try { } %s", "#[static %s] fn f() {}",
+    "#[static] %s", "x.m(%s", "x[1 %s", "|a %s| 1;", "(1, %s", "import %s %s;", "return 1 %s;", "break %s;", "class %s", "super %s;",
+    "x = \n\n %s %s;", "{ var y = 1 %s }", '"a${1 %s}b";', "1 +\n %s\n %s\n;", "var x = 1; } %s", "else %s", "%s\n%s\n%s",
+]
+
+
+def error_token_inputs(rng, files, quick):
+    """an error INSIDE the error path: every error site the generators know (the 42 positions of MB_TEMPLATES, 33 more
+    that are errors AT the inserted token, and token replacements / insertions in corpus scripts) with the reported token
+    being LONG (100 .. 5000+ bytes) and NON-ASCII at every byte alignment - whatever error_at / synchronise / the
+    scanner's error tokens do with a token's text (quote it, shorten it, pad it, find its column) meets every character
+    width at every offset.  -> (texts for the model, texts judged on (T),(P),(E) + debug = release)"""
+    sizes = [81, 100, 300, 1100] if quick else [17, 33, 65, 81, 100, 129, 257, 300, 1100, 5000, 70000]
+    toks = []
+    for nb in sizes:
+        for ch in MB:
+            for shift in (0, 1, 2, 3):
+                for kind in ("str", "interp", "interp_tail", "bare"):
+                    if quick and ((kind == "interp_tail" and shift > 1) or (kind == "bare" and (shift > 1 or nb > 300))):
+                        continue
+                    toks.append(wide_token(ch, shift, nb, kind))
+    toks.append('"' + "a" * 300 + '"')
+    toks.append("a" * 300)
+    toks.append("9" * 300 + "." + "9" * 300)
+    toks.append('"' + "é\n" * 100 + '"')
+    toks.append('"' + "'" * 100 + "é" * 100 + '"')
+    implonly, modelled = [], []
+    tpls = MB_TEMPLATES + ERRTOK_TEMPLATES
+    for i, tpl in enumerate(tpls):
+        for j, t in enumerate(toks):
+            # every template with every (width, shift) at 2 sizes; the full product in thorough
+            if quick and (i + j) % 7 not in (0, 3):
+                continue
+            implonly.append(("errtoken:%s" % tpl[:12].strip(), tpl.replace("%s", t)))
+    for _ in range(300 if quick else 3000):
+        src = rng.choice(files)[1]
+        ps = pieces(src)
+        idx = [i for i, (k, _) in enumerate(ps) if k not in ("ws", "com")]
+        if not idx:
+            continue
+        i = rng.choice(idx)
+        t = rng.choice(toks)
+        if rng.random() < 0.5:
+            ps[i] = ("x", " " + t + " ")
+        else:
+            ps.insert(i, ("x", " " + t + " "))
+        implonly.append(("errtoken:corpus", "".join(x for _, x in ps)))
+    small = [c for c in implonly if len(c[1]) < 700]
+    modelled = rng.sample(small, min(len(small), 150 if quick else 1500))
+    return modelled, implonly
+
+
+def error_token_family(ctx, st, files, quick):
+    modelled, implonly = error_token_inputs(ctx.rng, files, quick)
+    st["implonly_key"] = "errtoken_implonly"
+    st.setdefault("errtoken_implonly", 0)
+    try:
+        check_texts(ctx, implonly, st, "errtoken", debug_subset=list(range(len(implonly))), model_applies=False, batch=100)
+    finally:
+        st.pop("implonly_key", None)
+    if len(st["viol"]) < 5:
+        check_texts(ctx, modelled, st, "errtokenm", batch=100)
+    st["errtoken"] = len(implonly)
+    st["errtoken_modelled"] = len(modelled)
+    return len(implonly)
+
+
 def scanner_family(ctx, st, quick):
     """the enumerated scanner-position texts: ALL on both builds, judged on (T),(P),(E) and debug = release; a sample
     (from ctx.rng) through the model as well ((F),(A): acceptance and first message)"""
@@ -1020,6 +1363,14 @@ def build_cases(ctx):
 def run(ctx):
     if ctx.replay_only:
         src = ctx.replay_only.get("input", "")
+        if ctx.replay_only.get("stack_kib"):
+            # a length-scale violation: the same build, the same stack
+            im = run_scale(ctx.harness(ctx.replay_only.get("build", "debug")), [src], int(ctx.replay_only["stack_kib"]))[0]
+            if im.kind in ("crash", "panic", "timeout"):
+                ctx.violation(what="compile %s on a %d KiB stack" % (im.kind, int(ctx.replay_only["stack_kib"])), input=src,
+                              expected="a function or a compile error", actual="%s %s" % (im.kind, im.detail))
+            ctx.cov.update({"evaluations": 1, "distinct_nontrivial": 0, "rule": "replay of one input", "samples": [src[:400]]})
+            return
         st = classify(ctx, src)
         for v in st["viol"][:1]:
             v.pop("cls", None)
@@ -1044,6 +1395,12 @@ def run(ctx):
     t0 = time.time()
     scanner_family(ctx, st, quick)
     log("[C03] scanner-position family judged in %.0fs (%d violations)" % (time.time() - t0, len(st["viol"])))
+    if len(st["viol"]) < 5:
+        error_token_family(ctx, st, files, quick)
+        log("[C03] error-token family (%d texts) judged at %.0fs (%d violations)" % (st.get("errtoken", 0), time.time() - t0, len(st["viol"])))
+    if len(st["viol"]) < 5:
+        scale_family(ctx, st, quick)
+        log("[C03] length-scale family (%d texts) judged at %.0fs (%d violations)" % (st.get("scale_cases", 0), time.time() - t0, len(st["viol"])))
     SL = 2500
     dbgset = set(dbg)
     for a in range(0, len(uniq), SL):
@@ -1148,7 +1505,7 @@ def finish(ctx, st, uniq, lad, lim, cs, dist, corpus_texts, nrun, run_timeouts, 
         ctx.broken.append("POutOfFuel verdicts: %d - contradicts C03_parse_fuel_enough (stale .vo or changed default_fuel?), e.g. %r" % (st["fuel"], st["fuel_samples"][:2]))
     novel = [s for s in st["accepted"] if s not in corpus_texts]
     total = len(uniq) + len(lad) + len(lim) + len(cs) + st.get("kw", 0) + st.get("attr_inputs", 0) + st.get("boundary_inputs", 0) + \
-        st.get("scanbyte", 0)
+        st.get("scanbyte", 0) + st.get("scale_cases", 0) + st.get("errtoken", 0) + st.get("errtoken_modelled", 0)
     # comments of the RULES array vs the kind names (information only: a comment is not code)
     try:
         with open(os.path.join(yvlib.COQ, "gen", "manifest.json")) as fh:
@@ -1171,6 +1528,9 @@ def finish(ctx, st, uniq, lad, lim, cs, dist, corpus_texts, nrun, run_timeouts, 
         "out_of_fuel": st["fuel"], "not_judged_after_many_failures": st["skipped"], "code_size_dependent": st["codesize"], "attr_order_nondeterministic": st["attr_nondet"],
         "scanner_position_texts": st.get("scanbyte", 0), "scanner_position_texts_through_model": st.get("scanbyte_modelled", 0),
         "scanner_position_model_agreements": st.get("scanbyte_agree", 0),
+        "length_scale_texts": st.get("scale_cases", 0), "length_scale_closed_form_agreements": st.get("scale_closed_form", 0),
+        "length_scale_stack_kib": STACK_KIB, "length_scale_debug_timeouts_not_judged": st.get("scale_debug_timeouts_not_judged", 0),
+        "error_token_texts": st.get("errtoken", 0), "error_token_texts_through_model": st.get("errtoken_modelled", 0),
         "texts_by_family": dist, "keyword_probes": st.get("kw", 0), "attribute_inputs": st.get("attr_inputs", 0), "boundary_inputs": st.get("boundary_inputs", 0),
         "duplicate_attribute_error_classes": st.get("dup_attr_agreements", 0), "ladders": len(lad), "limits": len(lim), "code_size_inputs": len(cs),
         "debug_build_texts": ndebug, "run_sample": nrun, "run_timeouts_not_judged": run_timeouts,
